@@ -81,16 +81,16 @@ fn key_of(chain: &String, id: &String) -> Val {
     DataKey::MessageApproval(MessageApprovalKey { source_chain: chain.clone(), message_id: id.clone() }).into_val(&Env)
 }
 /// status: 0 absent, 1 Approved(h), 2 Executed, 3 explicit NotApproved
-fn seed_status(chain: &String, id: &String, status: u8, h: &[u8; 32]) {
+fn seed_status_if(cond: bool, chain: &String, id: &String, status: u8, h: &[u8; 32]) {
     let v: Option<MessageApprovalValue> = match status {
         1 => Some(MessageApprovalValue::Approved(BytesN(*h))),
         2 => Some(MessageApprovalValue::Executed),
         3 => Some(MessageApprovalValue::NotApproved),
         _ => None,
     };
-    if let Some(v) = v {
-        model::storage_set(&gw(), 1, &key_of(chain, id), &model::val_of(&v));
-    }
+    let present = v.is_some();
+    let v = v.unwrap_or(MessageApprovalValue::NotApproved);
+    model::storage_set_if(present && cond, &gw(), 1, &key_of(chain, id), &model::val_of(&v));
 }
 fn status_is(chain: &String, id: &String, status: u8, h: &[u8; 32]) -> bool {
     let got = model::storage_get(&gw(), 1, &key_of(chain, id));
@@ -121,7 +121,7 @@ fn c02_validate_message_step() {
     let h_appr = spec_msg_hash(&env, &approved_for);
     let status: u8 = kani::any();
     kani::assume(status <= 3);
-    seed_status(&msg.source_chain, &msg.message_id, status, &h_appr);
+    seed_status_if(true, &msg.source_chain, &msg.message_id, status, &h_appr);
     // witness entry
     let wc = any::string(2);
     let wi = any::string(2);
@@ -129,9 +129,7 @@ fn c02_validate_message_step() {
     kani::assume(wstatus <= 2);
     let wh = any::b32(1).0;
     let same_key = wc == msg.source_chain && wi == msg.message_id;
-    if !same_key {
-        seed_status(&wc, &wi, wstatus, &wh);
-    }
+    seed_status_if(!same_key, &wc, &wi, wstatus, &wh);
     let w0 = model::storage_writes();
     let ok = model::with_contract(&gw(), || {
         <AxelarGateway as AxelarGatewayMessagingInterface>::validate_message(
@@ -169,7 +167,7 @@ fn c02_queries_agree() {
     let h_appr = spec_msg_hash(&env, &approved_for);
     let status: u8 = kani::any();
     kani::assume(status <= 3);
-    seed_status(&msg.source_chain, &msg.message_id, status, &h_appr);
+    seed_status_if(true, &msg.source_chain, &msg.message_id, status, &h_appr);
     let w0 = model::storage_writes();
     let appr = model::with_contract(&gw(), || {
         <AxelarGateway as AxelarGatewayMessagingInterface>::is_message_approved(
